@@ -21,7 +21,7 @@ TxSet(txs) == {[kind |-> txs[i].kind, ok |-> txs[i].ok, proofs |-> ToSet(txs[i].
 TInit == Init /\ l = 1 /\ Trace[1].ev = "reset"
 TReset == /\ Trace[l + 1].ev = "reset"
           /\ mem' = [k \in Keys |-> 0] /\ db' = [k \in Keys |-> 0]
-          /\ failed' = [s \in SessIds |-> NoFail]
+          /\ failed' = [s \in SessIds |-> NoFail] /\ calls' = calls
           /\ cur' = 0 /\ ear' = 0 /\ life' = 1
           /\ subs' = [p \in Proofs |-> 0] /\ best' = [k \in Keys |-> 0] /\ okd' = {}
           /\ out' = NoOut /\ nops' = 0 /\ hist' = <<>>
